@@ -82,18 +82,21 @@ fn rename(a: &Value, m: &BTreeMap<u64, u64>) -> Value {
     b
 }
 
-/// the three numberings: boundaries first / last / interleaved (spider i -> 2i, boundary j -> 2j+1)
+/// the numberings: boundaries first / last / interleaved (spider i -> 2i, boundary j -> 2j+1), and with two or more
+/// boundaries also first / last with the boundaries in reversed order
 fn numbering(a: &Value, how: &str) -> BTreeMap<u64, u64> {
     let (sp, bs) = (ids(a, false), ids(a, true));
     let (k, m) = (sp.len() as u64, bs.len() as u64);
     let mut map = BTreeMap::new();
     for (i, &s) in sp.iter().enumerate() {
         let i = i as u64;
-        map.insert(s, match how { "first" => m + i, "last" => i, _ => 2 * i });
+        map.insert(s, match how { "first" | "first_rev" => m + i, "last" | "last_rev" => i, _ => 2 * i });
     }
     for (j, &b) in bs.iter().enumerate() {
         let j = j as u64;
-        map.insert(b, match how { "first" => j, "last" => k + j, _ => 2 * j + 1 });
+        // *_rev: the boundaries among themselves in REVERSED order (seed C20_f: the boundary with the largest id then is an
+        // attached one although the diagram has a bare boundary-to-boundary wire, whose vertices the family names last)
+        map.insert(b, match how { "first" => j, "last" => k + j, "first_rev" => m - 1 - j, "last_rev" => k + (m - 1 - j), _ => 2 * j + 1 });
     }
     map
 }
@@ -337,7 +340,8 @@ pub fn record_diagram(a0: &Value, tr: &mut Tr, st: &mut St) {
     if nb == 0 {
         return;
     }
-    for how in ["last", "inter"] {
+    let hows: Vec<&str> = if nb >= 2 { vec!["last", "inter", "first_rev", "last_rev"] } else { vec!["last", "inter"] };
+    for how in hows {
         // the map is relative to the diagram of the reset line
         let m = numbering(&first, how);
         let a = rename(&first, &m);
